@@ -56,8 +56,11 @@ mod raw {
         ];
         posix::poll(&mut fds, timeout)?;
 
+        // POLLERR is reported (without POLLOUT) for a full pipe whose read end
+        // has been closed.  Treat it as ready so that the write reports EPIPE
+        // instead of the caller mistaking an empty result for a timeout.
         Ok((
-            fds[0].test(posix::POLLOUT | posix::POLLHUP),
+            fds[0].test(posix::POLLOUT | posix::POLLHUP | posix::POLLERR),
             fds[1].test(posix::POLLIN | posix::POLLHUP),
             fds[2].test(posix::POLLIN | posix::POLLHUP),
         ))
